@@ -13,7 +13,7 @@ function, including
 * the subset of ElementPath it uses (`find`/`findall` with `tag`, `.//tag`,
   `.//a/b`, `./*[name='v']`, `compounddef/sectiondef//*[name='v']`),
   `itertext`, `.text`, `.attrib[...]`, `list(elem)`;
-* the exceptions that escape (`AttributeError`, `KeyError`, `IndexError`) —
+* the exceptions that escape (`AttributeError`, `KeyError`) —
   xml_parser.py catches only `FileNotFoundError` and `ET.ParseError`, both in
   `parse_xml`;
 * the statefulness: `self._memory` is threaded as `DocState`.
@@ -354,7 +354,7 @@ def extractDocstring (d : Dir) (st : DocState) (cls meth : String) (args : List 
       let (idx, st') := determineIndex st (functionKey cls meth args) defs.length
       if defs.isEmpty then ⟨.ok "", w, st'⟩
       else match defs[idx]? with
-        | none => ⟨.err "IndexError", w, st'⟩
+        | none => ⟨.ok "", w, st'⟩        -- more lookups than documented overloads: no documentation
         | some m => ⟨formatDocstring m ignored, w, st'⟩
 
 /-- A sequence of lookups on one parser object. -/
@@ -476,7 +476,8 @@ def pyRepr (s : String) : String := pyReprWith Gen.isPrintable s
 /-- The body of the emitted C++ literal. -/
 def escapeDoc (t : String) : String := String.ofList (escapeDocL Gen.isPrintable t.toList)
 
-/-- The `docstring=` argument at pybind_wrapper.py:282 for a non-empty `xml_source`. -/
-def docstringArg (t : String) : String := ", \"" ++ escapeDoc t ++ "\""
+/-- The `docstring=` argument of `_wrap_method` for a non-empty `xml_source`: the text escaped by
+    `cpp_string_literal_body` (= `cppEscape`; before fix 58823a1 it was `escapeDoc`, the `repr()`-based expression). -/
+def docstringArg (t : String) : String := ", \"" ++ cppEscape t ++ "\""
 
 end WrapModel.Xml
